@@ -11,6 +11,49 @@ import prettyprinter as P
 PP = common.pp_module('prettyprinter.prettyprinter')
 from checks.registry import registry_dict  # noqa
 
+
+
+class Pristine:
+    """The module-level mutable containers of the package (lists, dicts, sets, deques: tables that grow on demand,
+    memo dicts, scratch buffers) as they were when this module was imported, i.e. before this process printed anything
+    through the scenarios below. restore() puts their CONTENTS back, so that every schedule starts from the state of a
+    fresh import - a race on the first growth of such a table happens once per process otherwise, and the sequential
+    reference run would have used it up. The printer registries are left alone (the registry scenarios manage them)."""
+    KEEP = {'_DEFERRED_DISPATCH_BY_NAME', '_PREDICATE_REGISTRY'}
+
+    def __init__(self):
+        import collections
+        import copy
+        import sys
+        self.snap = []
+        seen = set()
+        for name, mod in list(sys.modules.items()):
+            if mod is None or not (name == 'prettyprinter' or name.startswith('prettyprinter.')):
+                continue
+            for k, v in list(vars(mod).items()):
+                if k.startswith('__') or k in self.KEEP or id(v) in seen:
+                    continue
+                if type(v) in (list, dict, set, collections.deque, bytearray, collections.OrderedDict, collections.defaultdict):
+                    seen.add(id(v))
+                    self.snap.append((name + '.' + k, v, copy.copy(v)))
+
+    def restore(self):
+        for _, obj, saved in self.snap:
+            if isinstance(obj, dict):
+                obj.clear()
+                obj.update(saved)
+            elif isinstance(obj, set):
+                obj.clear()
+                obj.update(saved)
+            else:
+                obj[:] = saved
+
+    def names(self):
+        return sorted(n for n, _, _ in self.snap)
+
+
+PRISTINE = Pristine()
+
 FUNCS = {'is_registered', 'decorator', 'pretty_python_value', 'get_deferred_key', 'register_pretty'}
 EXPECTED = {'K': 1, 'KS': 1, 'R': 2, 'U': 0}
 
@@ -148,17 +191,20 @@ def layout_path_scenario(chk):
     pkgdir = os.path.dirname(P.__file__)
     allfiles = _glob.glob(os.path.join(pkgdir, '*.py')) + _glob.glob(os.path.join(pkgdir, 'extras', '*.py'))
     # (layout engine only, line by line) and (every source line of the package, sampled)
-    for files, pairs_ in (([LAY.__file__, DTY.__file__], pairs), (allfiles, pairs[:2] if q else pairs)):
+    import prettyprinter.render as REN
+    for files, pairs_ in (([LAY.__file__, DTY.__file__], pairs), ([REN.__file__], pairs[2:]), (allfiles, pairs[:2] if q else pairs)):
       for a, b in pairs_:
+        PRISTINE.restore()
         _, _, nsteps = sched.run_with_preemption(job(a), job(b), None, files, locks=module_locks())
         stride = max(1, nsteps // (150 if q else 1500))
         for k in range(1, nsteps + 1, stride):
+            PRISTINE.restore()       # every schedule starts from the module state of a fresh import
             ra, rb, _ = sched.run_with_preemption(job(a), job(b), k, files, locks=module_locks())
             calls = [{'t': 1, 'seq': texts[seq[a]], 'got': got(ra)}, {'t': 2, 'seq': texts[seq[b]], 'got': got(rb)}]
             cid = len(cases) + 1
             cases.append({'id': cid, 'calls': calls})
             meta[cid] = {'threads': ['pformat(%r, width=%d)' % jobs[a], 'pformat(%r, width=%d)' % jobs[b]],
-                         'traced': 'layout engine' if len(files) == 2 else 'whole package',
+                         'traced': {1: 'renderer', 2: 'layout engine'}.get(len(files), 'whole package'),
                          'thread_0_preempted_before_its_traced_line': k, 'results': [ra, rb]}
             chk.nontrivial(('lines', len(files), a, b, k))
     v, st = common.tlc_batch('ConcurrentCalls', CC_CFG, cases, os.path.join(chk.workdir, 'cc'), tags=('SAFE',),
@@ -237,6 +283,7 @@ def overlap_scenario(chk):
         kbs = sorted(set([1, 4] + [max(1, nb * i // (3 if q else 6)) for i in range(1, (3 if q else 6))]))
         for ka in kas:
             for kb in kbs:
+                PRISTINE.restore()
                 ra, rb, _, _ = sched.run_overlapped(job(a), job(b), ka, kb, allfiles)
                 cid = len(cases) + 1
                 calls = [{'t': 1, 'seq': ids[seq[a]], 'got': ids.get(outcome(ra), 0 if ra[0] == 'ok' else -1)},
@@ -340,6 +387,7 @@ def check_c20(chk, args):
     locks = module_locks()
     locking = 'TRUE' if locks else 'FALSE'
     chk.cov['module_level_locks_found'] = len(locks)
+    chk.cov['module_state_restored_before_each_schedule'] = PRISTINE.names()
     # --- model level
     r = model_check(chk, 2, 2, locking)
     chk.stage('tlc.model-check RegistryThreads', threads=2, jobs=2, locking=locking, states=r.distinct,
